@@ -18,7 +18,9 @@ import (
 )
 
 type Runner struct {
-	pool []*dataframe.DataFrame
+	pool   []*dataframe.DataFrame
+	gdf    *dataframe.GroupedDataFrame // the grouped object of the latest groupby/groupagg step
+	gdfKey string
 	// when set, row-wise Apply runs with its completion order forced: pick chooses among the waiting rows
 	pick     func(waiting []int, k int) int
 	realised []int
@@ -324,11 +326,15 @@ func (r *Runner) Exec(o Op) (out Out) {
 		return derive(df.Resample(string(o.S1), string(o.S2), resampleFn(o.Fn)))
 	case "groupby", "groupagg":
 		var g *dataframe.GroupedDataFrame
-		if o.GList {
+		gkey := fmt.Sprintf("%d|%v|%q|%q", o.F, o.GList, o.S1, o.Strs)
+		if o.Reuse && r.gdf != nil && r.gdfKey == gkey {
+			g = r.gdf
+		} else if o.GList {
 			g = df.Groupby(strsOf(o.Strs))
 		} else {
 			g = df.Groupby(string(o.S1))
 		}
+		r.gdf, r.gdfKey = g, gkey
 		if o.K == "groupby" {
 			if g.Error() != nil {
 				return errOut(g.Error())
